@@ -27,6 +27,7 @@ func init() {
 			"C04.R1 MPT on values: every output argument of a command constructor is checked/in-place/stdout on every path",
 			"C04.R2 the availability checks refuse unless empty/-/force/not-exist; force is bound to --force",
 			"C04.R3 exemption table (append-to-existing commands)",
+			"C04.R5 shape: no argument list reaches a …PDFArgs resolver with its tail cut off (the explicit output argument is never dropped before the availability check)",
 		},
 		Assumptions: []string{"commands reach pkg/cli only through the constructors (Command literals outside pkg/cli are reported)", "os.Stat/os.ReadDir semantics"},
 		Technique:   "forward must-dataflow of checked(v) facts over SSA values with success-edge generation and helper summaries; constructor output parameters found by reading constructor SSA; exemption table",
@@ -470,6 +471,8 @@ func runC04(c *Ctx) {
 	r.MinInst["C04.R1"] = 40
 	r.MinInst["C04.R2"] = 4
 	r.MinInst["C04.R3"] = 2
+	r.MinInst["C04.R5"] = 20
+	checkOutputArgNotDropped(c)
 	st := &c04State{c: c, flows: map[*ssa.Function]*FactFlow{}, genE: map[*ssa.Function]map[Edge][]string{}, sumP: map[string]int{}}
 
 	// constructors
@@ -729,4 +732,55 @@ func isNotExistSentinel(v ssa.Value) bool {
 		}
 	}
 	return false
+}
+
+// ---------------- C04.R5 (round 4 seed C04-H): the output argument reaches the resolver ----------------
+
+// checkOutputArgNotDropped: the positional arguments end with the optional output file; the resolvers (functions of
+// cmd/pdfcpu whose name ends in PDFArgs) are where an explicit output is checked against existing files. A handler may
+// strip LEADING arguments (a description, a mode) before calling a resolver, but never the tail: no []string handed to a
+// resolver is a slice with an upper bound (args[:1]) — that drops the output the user named, the resolver falls back
+// to "write in place", and the named file (the input under another spelling, or a hard link to it) is rewritten
+// without --force.
+func checkOutputArgNotDropped(c *Ctx) {
+	p, r := c.P, c.R
+	n := 0
+	for _, fn := range p.Funcs {
+		if !isSubject(fn) || fn.Pkg == nil || !strings.HasSuffix(fn.Pkg.Pkg.Path(), "/cmd/pdfcpu") {
+			continue
+		}
+		k := 0
+		eachInstr(fn, func(_ *ssa.BasicBlock, _ int, i ssa.Instruction) {
+			call, ok := i.(*ssa.Call)
+			if !ok {
+				return
+			}
+			callee := staticCallee(call)
+			if callee == nil || !strings.HasSuffix(callee.Name(), "PDFArgs") || !isSubject(callee) {
+				return
+			}
+			for _, a := range call.Call.Args {
+				if a.Type().String() != "[]string" {
+					continue
+				}
+				k++
+				n++
+				construct := fmt.Sprintf("arguments handed to %s#%d", callee.Name(), k)
+				cut := false
+				for _, l := range valueLeaves(a) {
+					if sl, ok := l.(*ssa.Slice); ok && sl.High != nil {
+						cut = true
+					}
+				}
+				if cut {
+					r.Bad("C04.R5", FuncID(fn), construct, p.Pos(call.Pos()), "the argument list can reach the resolver with its tail cut off (a slice with an upper bound): an explicit output file is dropped before it is checked against existing files, the command runs in place and rewrites a file the user named as output without --force")
+				} else {
+					r.OK("C04.R5", FuncID(fn), construct, p.Pos(call.Pos()), "the trailing arguments reach the resolver", true)
+				}
+			}
+		})
+	}
+	if n == 0 {
+		r.Bad("C04.R5", "cmd/pdfcpu", "anchor", "", "UNRESOLVED-ANCHOR: no call of a …PDFArgs resolver with an argument list")
+	}
 }
